@@ -552,6 +552,11 @@ pub(crate) fn add_float_format<W, R, T>(
             let a1 = xraise!(eval(&args[1], ns, &rt)?);
             let f0 = to_primitive!(a0, Float);
             let s1 = to_primitive!(a1, String);
+            if s1.as_str().is_empty() {
+                // documented: format(x, "") == to_str(x)
+                let text = format!("{:?}", if *f0 == -0.0 { 0.0 } else { *f0 });
+                return Ok(ManagedXValue::new(XValue::String(Box::new(FencedString::from_string(text))), rt)?.into());
+            }
             let Some(specs) = XFormatting::from_str(s1.as_str()) else {return xerr(ManagedXError::new("invalid format spec", rt)?);};
 
             rt.can_allocate(specs.min_width())?;
